@@ -208,7 +208,9 @@ def rule_r3(ctx, rule="R3"):
               "a value already in the list is linked a second time without erasing its old box (duplicate yield / stale map entry)",
               how="`if id in map: self.remove(value)` test dominates every link and map write")
     guards = [norm(n.test) for n in own_nodes(ins.node) if isinstance(n, ast.If) and any(isinstance(s, (ast.Raise, ast.Return)) for s in n.body)]
-    ok = any("owning_list is not self" in g for g in guards) and any("new_value is None" in g for g in guards) and any("box.value is new_value" in g for g in guards)
+    p_anchor, p_new = ins.params[1], ins.params[2]  # roles by position: the parameters of a private method may be renamed
+    ok = any(f"{p_anchor}.owning_list is not self" in g for g in guards) and any(f"{p_new} is None" in g for g in guards) \
+        and any(f"{p_anchor}.value is {p_new}" in g for g in guards)
     ctx.check(rule, "_insert_one_after: rejects None, foreign anchor boxes and self-insertion before linking", ok, ins, ins.node,
               "one of the entry guards of the insertion primitive is missing", how="guard texts", nontrivial=False)
     # new box: prev/next wiring complete.  Roles are taken from the code: the anchor is the box parameter, the new box
